@@ -13,10 +13,15 @@ One model instance = one queue. Every event is one atomic action of the code:
 * `jobIn w j` (`cbin j`), `jobOut w j` (`cbout j`)   worker goroutine `w` enters / leaves job `j`
 * `skipNil w`                    the worker skips a nil job (queue.go:159)
 * `popCS w`                      the worker's critical section (queue.go:164-172): next job or retire + broadcast
-* `invWI t`, `wiCS t`, `wiWake t`, `wiCtx t`, `wiErr t`, `retWI t r`   `WaitIdle`: sample section
-                                 (queue.go:72-77), the three branches of its select (queue.go:81-94)
-* `invWS t nilcb`, `wsCS t`, `cbWS t q r a`, `wsWake t`, `wsCtx t`, `retWS t r`   `WatchState`: sample section
-                                 (queue.go:118-121), the callback (harness-scripted answer `a`), the select
+* `invWI t`, `wiCS t`, `wiCtx t`, `wiErr t`, `retWI t r`   `WaitIdle`: sample section (queue.go:72-77; the
+                                 first one, or the re-check after the select took `<-wait`, enabled iff the
+                                 wait channel is closed), the other two branches of its select (queue.go:81-94)
+* `invWS t nilcb`, `wsCS t`, `cbWS t q r a`, `wsCtx t`, `retWS t r`   `WatchState`: sample section
+                                 (queue.go:118-121; first, or re-sample once the wait channel is closed), the
+                                 callback (harness-scripted answer `a`), the ctx branch of the select
+
+As in the csync models the decision "select took the wait channel" is folded into the re-check
+section it leads to (the decision itself touches no shared state).
 * `envCancel t`, `envErr t m`    the harness cancels the context of call `t` / sends on or closes its errCh
 * `quiesce B A`                  nothing moves; `B` pending calls, `A` jobs in progress
 
@@ -124,14 +129,12 @@ inductive Ev where
   | popCS (w : Nat)
   | invWI (t : Nat)
   | wiCS (t : Nat)
-  | wiWake (t : Nat)
   | wiCtx (t : Nat)
   | wiErr (t : Nat)
   | retWI (t : Nat) (r : Res)
   | invWS (t : Nat) (nilcb : Bool)
   | wsCS (t : Nat)
   | cbWS (t : Nat) (q r : Int) (a : Act)
-  | wsWake (t : Nat)
   | wsCtx (t : Nat)
   | retWS (t : Nat) (r : Res)
   | envCancel (t : Nat)
@@ -256,6 +259,15 @@ def activeJobs (s : St) : List Nat :=
 def idsOK (js : List (Nat × Bool)) (first : Nat) : Bool :=
   js.map (·.1) == List.range' first js.length
 
+/-- the sample section of `WaitIdle` (queue.go:72-77) -/
+def wiSample (s : St) (t : Nat) : St :=
+  if s.running = 0 ∧ s.qsize = 0 then { s with th := s.th.set t (.wiDone .nil) }
+  else { s with bc := s.bc.getWaitCh.1, th := s.th.set t (.wiParked s.bc.getWaitCh.2) }
+
+/-- the sample section of `WatchState` (queue.go:118-121) -/
+def wsSample (s : St) (t : Nat) : St :=
+  { s with bc := s.bc.getWaitCh.1, th := s.th.set t (.wsCb s.qsize s.running s.bc.getWaitCh.2) }
+
 def step (s : St) : Ev → Option St
   | .invNew t L js =>
     if s.created = false ∧ t = s.th.length ∧ idsOK js s.jobs.length then
@@ -315,13 +327,8 @@ def step (s : St) : Ev → Option St
     if s.created = true ∧ t = s.th.length then some { s with th := s.th ++ [.wiInv] } else none
   | .wiCS t =>
     match s.th[t]? with
-    | some .wiInv =>
-      if s.running = 0 ∧ s.qsize = 0 then some { s with th := s.th.set t (.wiDone .nil) }
-      else some { s with bc := s.bc.getWaitCh.1, th := s.th.set t (.wiParked s.bc.getWaitCh.2) }
-    | _ => none
-  | .wiWake t =>
-    match s.th[t]? with
-    | some (.wiParked ch) => if s.bc.closed ch then some { s with th := s.th.set t .wiInv } else none
+    | some .wiInv => some (wiSample s t)
+    | some (.wiParked ch) => if s.bc.closed ch then some (wiSample s t) else none
     | _ => none
   | .wiCtx t =>
     match s.th[t]? with
@@ -346,8 +353,8 @@ def step (s : St) : Ev → Option St
     else none
   | .wsCS t =>
     match s.th[t]? with
-    | some .wsInv =>
-      some { s with bc := s.bc.getWaitCh.1, th := s.th.set t (.wsCb s.qsize s.running s.bc.getWaitCh.2) }
+    | some .wsInv => some (wsSample s t)
+    | some (.wsParked _ _ ch) => if s.bc.closed ch then some (wsSample s t) else none
     | _ => none
   | .cbWS t q r a =>
     match s.th[t]? with
@@ -358,10 +365,6 @@ def step (s : St) : Ev → Option St
           | .stop => .wsDone .nil
           | .err => .wsDone .err) }
       else none
-    | _ => none
-  | .wsWake t =>
-    match s.th[t]? with
-    | some (.wsParked _ _ ch) => if s.bc.closed ch then some { s with th := s.th.set t .wsInv } else none
     | _ => none
   | .wsCtx t =>
     match s.th[t]? with
@@ -377,7 +380,7 @@ def step (s : St) : Ev → Option St
     if quiescent s ∧ B = pendingIds s ∧ A = activeJobs s then some s else none
 
 def cands (s : St) : List Ev :=
-  ((List.range s.th.length).flatMap fun t => [.enqCS t, .wiCS t, .wiWake t, .wiCtx t, .wiErr t, .wsCS t, .wsWake t, .wsCtx t]) ++
+  ((List.range s.th.length).flatMap fun t => [.enqCS t, .wiCS t, .wiCtx t, .wiErr t, .wsCS t, .wsCtx t]) ++
   ((List.range s.ws.length).flatMap fun w => [.skipNil w, .popCS w])
 
 def model : OLTS St Ev Obs where
